@@ -23,7 +23,8 @@ use crate::{ensure, vio};
 
 #[derive(Clone, Copy, Debug, Serialize, Deserialize, PartialEq, Eq)]
 pub struct DataSpec {
-    /// 0 empty, 1 single byte, 2 runs, 3 text, 4 incompressible, 5 all byte values
+    /// 0 empty, 1 single byte, 2 runs, 3 text, 4 incompressible, 5 all byte values,
+    /// 6 one repeated byte, 7 short repeating pattern
     pub kind: u8,
     pub seed: u64,
     pub len: u32,
@@ -53,7 +54,13 @@ impl DataSpec {
                 r.fill(&mut v);
                 v
             }
-            _ => (0..n).map(|i| i as u8).collect(),
+            5 => (0..n).map(|i| i as u8).collect(),
+            6 => vec![self.seed as u8; n],
+            _ => {
+                // short repeating pattern: compresses far better than 1000:1
+                let pat: Vec<u8> = (0..1 + (self.seed % 13) as usize).map(|i| (self.seed >> (i % 8)) as u8 ^ i as u8).collect();
+                (0..n).map(|i| pat[i % pat.len()]).collect()
+            }
         }
     }
 }
@@ -71,6 +78,10 @@ pub struct CodecCase {
     /// reader input produced by the upstream encoder (true) or by the crate's one-shot helper
     pub upstream_input: bool,
     pub pycheck: bool,
+    /// streaming writers: flush after every n-th chunk as well (0 = only at the end), and twice
+    /// at the end
+    #[serde(default)]
+    pub mid_flush: u32,
 }
 
 pub struct Codec;
@@ -119,16 +130,23 @@ impl Scenario for Codec {
         "(data, codec, path, chunk schedule, stream policy): data empty / 1 byte / runs / text / incompressible / all byte values up to 64 KiB (quick) or 8 MiB (thorough); paths one-shot, sync streaming writer (caller's writes split by a chunk schedule over a short-writing disk, flush, drop), sync streaming reader (varying buffer sizes over a short-reading disk), async writer (Pending, close) and async reader; outputs decoded by the upstream libraries called directly and, for a gzip sample, by CPython zlib; 'unknown' must be refused by all six entry points; distinct = distinct serialized cases; non-trivial = data non-empty".into()
     }
     fn generate(&self, rng: &mut Rng, tier: Tier, run: u64) -> Value {
-        let kind = match rng.below(12) {
+        let mut kind = match rng.below(15) {
             0 => 0,
             1 => 1,
             2 | 3 => 2,
             4..=6 => 3,
             7..=9 => 4,
-            _ => 5,
+            10 => 5,
+            11 | 12 => 6,
+            _ => 7,
         };
-        let max = if tier == Tier::Thorough && rng.chance(2) { 8 << 20 } else { 64 << 10 };
-        let len = rng.log_range(1, max) as u32;
+        // multi-megabyte inputs: rare, and mostly the highly compressible kinds
+        let big = rng.chance(if tier == Tier::Thorough { 2 } else { 1 });
+        let max = if big { 8 << 20 } else { 64 << 10 };
+        let len = if big { rng.range(1 << 20, max) as u32 } else { rng.log_range(1, max) as u32 };
+        if big && rng.chance(70) {
+            kind = *rng.pick(&[6u8, 7, 7, 2]);
+        }
         let ic = if rng.chance(6) { 0 } else { 1 + rng.below(4) as u8 };
         let path = rng.below(5) as u8;
         let asyncish = path >= 3;
@@ -154,7 +172,7 @@ impl Scenario for Codec {
                 pol.wr = Xfer::Fixed(1000);
             }
         }
-        to_value(&CodecCase { data: DataSpec { kind, seed: rng.next_u64(), len }, ic, path, chunks, pol, upstream_input: rng.chance(50), pycheck: run % 97 == 0 })
+        to_value(&CodecCase { data: DataSpec { kind, seed: rng.next_u64(), len }, ic, path, chunks, pol, upstream_input: rng.chance(50), pycheck: run % 97 == 0, mid_flush: if rng.chance(35) { 1 + rng.below(5) as u32 } else { 0 } })
     }
     fn execute(&self, case: &Value, ctx: &mut Ctx) -> V<()> {
         let c: CodecCase = from_value(case);
@@ -189,11 +207,17 @@ impl Scenario for Codec {
                     let mut d2 = disk.clone();
                     let mut w = pmtiles2::util::compress(comp, &mut d2)?;
                     let mut at = 0;
-                    for n in &chunks {
+                    for (i, n) in chunks.iter().enumerate() {
                         w.write_all(&data[at..at + n])?;
                         at += n;
+                        if c.mid_flush > 0 && (i as u32 + 1) % c.mid_flush == 0 {
+                            w.flush()?;
+                        }
                     }
                     w.flush()?;
+                    if c.mid_flush > 0 {
+                        w.flush()?;
+                    }
                     drop(w);
                     Ok(())
                 })?;
@@ -255,9 +279,12 @@ impl Scenario for Codec {
                     let mut d2 = disk.clone();
                     let mut w = pmtiles2::util::compress_async(comp, &mut d2)?;
                     let mut at = 0;
-                    for n in &chunks {
+                    for (i, n) in chunks.iter().enumerate() {
                         w.write_all(&data[at..at + n]).await?;
                         at += n;
+                        if c.mid_flush > 0 && (i as u32 + 1) % c.mid_flush == 0 {
+                            w.flush().await?;
+                        }
                     }
                     w.close().await?;
                     Ok::<(), std::io::Error>(())
@@ -299,6 +326,9 @@ impl Scenario for Codec {
         }
         if c.chunks != Xfer::Full {
             out.push(to_value(&CodecCase { chunks: Xfer::Full, ..c.clone() }));
+        }
+        if c.mid_flush != 0 {
+            out.push(to_value(&CodecCase { mid_flush: 0, ..c.clone() }));
         }
         out
     }
